@@ -146,6 +146,16 @@ func nilTest(cond ssa.Value) (x ssa.Value, nilWhenTrue bool, ok bool) {
 // b through the dominator tree: for each dominating If whose one successor
 // dominates b (and is entered only from that If), yield (cond, polarity).
 func edgeFacts(b *ssa.BasicBlock, f func(cond ssa.Value, val bool) bool) {
+	// s is entered only through the edge d->s (other predecessors are back
+	// edges from blocks that s itself dominates)
+	onlyVia := func(s, d *ssa.BasicBlock) bool {
+		for _, p := range s.Preds {
+			if p != d && !s.Dominates(p) {
+				return false
+			}
+		}
+		return true
+	}
 	for cur := b; cur != nil; {
 		d := cur.Idom()
 		if d == nil {
@@ -155,11 +165,11 @@ func edgeFacts(b *ssa.BasicBlock, f func(cond ssa.Value, val bool) bool) {
 			if iff, ok := d.Instrs[len(d.Instrs)-1].(*ssa.If); ok {
 				t, e := d.Succs[0], d.Succs[1]
 				if t != e {
-					if len(t.Preds) == 1 && t.Dominates(b) {
+					if onlyVia(t, d) && t.Dominates(b) {
 						if !f(iff.Cond, true) {
 							return
 						}
-					} else if len(e.Preds) == 1 && e.Dominates(b) {
+					} else if onlyVia(e, d) && e.Dominates(b) {
 						if !f(iff.Cond, false) {
 							return
 						}
